@@ -417,3 +417,21 @@ PROPS['C20'] = {
     'assumptions': ['determinism: the executor is a deterministic interpreter of the SSA; results depend only on the arguments and DefaultRoundingMode (the only package variable read that the harnesses make symbolic)'],
     'validate_per_harness': 2,
 }
+
+
+# ---------------------------------------------------------------- C13 (decoding half)
+def c13_jobs(tier, seed):
+    jobs = [('vh_c13_unmarshal', [L], CUT) for L in range(0, (5 if tier == 'quick' else 7) + 1)]
+    jobs += r_jobs([128], tier, seed, sample=4)
+    return jobs
+
+
+PROPS['C13'] = {
+    'jobs': c13_jobs,
+    'must_reach': ['C13:null', 'C13:reject', 'C13:number', 'C13:zero', 'C13:lenient'],
+    'bounds': {'quick': 'UnmarshalJSON on every byte string of length 0..5 (all bytes symbolic), DefaultRoundingMode symbolic: null/empty leave the receiver untouched; every RFC 8259 number gives exactly the value the text denotes (rounding kernel cut, reduce128 contract checked); every other input is an error (*json.UnmarshalTypeError, receiver untouched) or one of the lenient numeral forms of the shared parser with exactly the denoted value.',
+               'thorough': 'byte strings up to 7 bytes.'},
+    'outside': 'MarshalJSON and the round trip through it (the formatting code is not encoded: see C06/C07); encoding/json plumbing (structs, slices, maps) is replaced by its documented contract; inputs longer than the stated bound',
+    'assumptions': ['encoding/json hands UnmarshalJSON the raw token; the method is driven directly with arbitrary bytes (a superset)', 'reflect.TypeOf/ValueOf are opaque'],
+    'validate_per_harness': 6,
+}
